@@ -393,6 +393,18 @@ Proof.
     destruct Hk as [_ _ _ _ O6 Hm|_ _ _ _ O2 _ Hm]; rewrite Hm in Eo; cbn [mv dst] in Eo; congruence.
 Qed.
 
+Lemma attacked_by_in p c t s : In s (attackers p c t) -> attacked_by p c t = true.
+Proof. unfold attacked_by. destruct (attackers p c t); [intros []|reflexivity]. Qed.
+Lemma attackers_in p c t s : s < 64 -> own p c s = true -> In t (attack_set p s) ->
+  In s (attackers p c t).
+Proof.
+  intros Hs Ho Hatt. unfold attackers. apply filter_In. split; [apply in_all_sq, Hs|].
+  apply andb_true_intro. split; [exact Ho|]. unfold attacks. apply mem_in, Hatt.
+Qed.
+Lemma in_check_king p c k : kings p c = 1 -> k < 64 -> has p k King c = true ->
+  in_check p c = attacked_by p (opp c) k.
+Proof. intros Hk Hlt Hh. unfold in_check. rewrite (king_sq_of p c k Hk Hlt Hh). reflexivity. Qed.
+
 Lemma valid_move_not_king p m c : valid_facts p -> src m < 64 -> move_kind p m ->
   has p (dst m) King c = false.
 Proof.
@@ -407,15 +419,11 @@ Proof.
       assert (own p (turn p) (dst m) = true) by (apply own_iff; eauto). congruence.
     - apply color_eqb_neq, E. }
   subst c.
-  pose proof (vf_nocheck p Hv) as Hnc. unfold in_check in Hnc.
-  rewrite (king_sq_of p _ (dst m) (vf_kings p Hv _) Hd Hh) in Hnc.
-  unfold attacked_by in Hnc. rewrite opp_opp in Hnc.
-  assert (Hin : In (src m) (attackers p (turn p) (dst m))).
-  { unfold attackers. apply filter_In. split; [apply in_all_sq, Hs|].
-    apply andb_true_intro. split.
-    - apply own_iff. apply (move_kind_src p m Hk).
-    - unfold attacks. apply mem_in, Hatt. }
-  destruct (attackers p (turn p) (dst m)); [destruct Hin|discriminate].
+  pose proof (vf_nocheck p Hv) as Hnc.
+  rewrite (in_check_king p _ (dst m) (vf_kings p Hv _) Hd Hh), opp_opp in Hnc.
+  assert (Hown : own p (turn p) (src m) = true) by (apply own_iff, (move_kind_src p m Hk)).
+  rewrite (attacked_by_in p (turn p) (dst m) (src m) (attackers_in _ _ _ _ Hs Hown Hatt)) in Hnc.
+  discriminate.
 Qed.
 
 (** *** the English reading, for one right: with the king on [k] and the rook on [q] (both of
@@ -472,3 +480,97 @@ Proof.
   split; [exact Hk|]. split; [exact Hq|]. rewrite (bq_lost_iff_touch p m Hr).
   apply (right_english p m Black 60 56); assumption.
 Qed.
+
+(** *** the same, read on the successor position: a held right survives a legal move exactly when
+    afterwards the king and that rook still stand on their home squares *)
+Lemma ep_ok_rank p t : ep_ok p = true -> ep p = Some t -> rank_of t = sixth_rank (turn p).
+Proof.
+  unfold ep_ok. intros H Ht. rewrite Ht in H. apply andb_prop in H as [H _].
+  apply andb_prop in H as [_ H]. apply N.eqb_eq, H.
+Qed.
+
+Lemma right_kept_home p m c qf : valid_facts p -> In m (legal_moves p) -> qf < 8 -> qf <> 4 ->
+  has p (home_rank c * 8 + 4) King c = true -> has p (home_rank c * 8 + qf) Rook c = true ->
+  (touches m (home_rank c * 8 + 4) || touches m (home_rank c * 8 + qf) = false <->
+   has (apply p m) (home_rank c * 8 + 4) King c = true /\
+   has (apply p m) (home_rank c * 8 + qf) Rook c = true).
+Proof.
+  intros Hv Hm Hqf Hqf4 Hk Hq.
+  set (k := home_rank c * 8 + 4) in *. set (q := home_rank c * 8 + qf) in *.
+  pose proof (vf_len p Hv) as Hlen.
+  assert (Hrk : rank_of k = home_rank c) by (apply rank_of_mk; lia).
+  assert (Hrq : rank_of q = home_rank c) by (apply rank_of_mk; lia).
+  split.
+  - intro Ht. apply orb_false_elim in Ht as [Tk Tq]. unfold touches in Tk, Tq.
+    apply orb_false_elim in Tk as [Sk Dk]. apply orb_false_elim in Tq as [Sq Dq].
+    apply N.eqb_neq in Sk, Dk, Sq, Dq.
+    assert (Hep : is_ep p m = true -> forall s, rank_of s = home_rank c -> s <> ep_victim m).
+    { intros He s Hs E. pose proof (legal_ep_facts p m Hm He) as F.
+      pose proof (ep_ok_rank p _ (vf_ep p Hv) (ef_target p m F)) as Hr6.
+      pose proof (step_fwd _ _ _ (ef_victim_behind p m F)) as [_ [_ Hr]]. cbn [snd] in Hr.
+      rewrite <- E in Hr. rewrite !rankZ_rank_of, Hs, Hr6 in Hr.
+      destruct c, (turn p); cbn in Hr; lia. }
+    assert (Hca : is_castle p m = true -> forall s, rank_of s = home_rank c ->
+                  s <> rook_from m /\ s <> rook_to m).
+    { intros Hc s Hs. pose proof (legal_castle_facts p m Hm Hc) as F.
+      pose proof (cf_src p m F) as Es.
+      assert (Ht : turn p = opp c).
+      { destruct (color_eqb (turn p) c) eqn:E.
+        - apply color_eqb_eq in E. rewrite E in Es. contradiction.
+        - apply color_eqb_neq in E. rewrite E, opp_opp. reflexivity. }
+      assert (Er : rank_of (src m) = home_rank (opp c)) by (rewrite Es, Ht; apply rank_of_mk; lia).
+      unfold rook_from, rook_to. rewrite Er.
+      split; intro E; rewrite E in Hs; rewrite rank_of_mk in Hs
+        by (destruct (file_of (dst m) =? 6); lia); destruct c; cbn in Hs; lia. }
+    split; apply has_iff.
+    + rewrite (at_apply_other p m Hlen Hm k); auto. apply has_iff, Hk.
+    + rewrite (at_apply_other p m Hlen Hm q); auto. apply has_iff, Hq.
+  - intros [Ak Aq]. apply has_iff in Ak, Aq.
+    apply not_true_is_false. intro Ht. apply orb_prop in Ht.
+    rewrite !touches_iff in Ht.
+    assert (Ht' : src m = k \/ dst m = k \/ src m = q \/ dst m = q) by tauto.
+    apply (right_english p m c k q Hv Hm Hk Hq) in Ht' as [E|[E|[E Etn]]].
+    + rewrite <- E, (at_apply_src p m Hlen Hm) in Ak. discriminate.
+    + rewrite <- E, (at_apply_src p m Hlen Hm) in Aq. discriminate.
+    + rewrite <- E, (at_apply_dst p m Hlen Hm), Etn in Aq. injection Aq as _ Ec.
+      exact (opp_neq _ Ec).
+Qed.
+
+Lemma negb_andb_true r x : r = true -> (r && negb x = true <-> x = false).
+Proof. intros ->. cbn [andb]. apply negb_true_iff. Qed.
+
+Theorem wk_kept_iff_home p m : pos_valid p = true -> In m (legal_moves p) -> wk p = true ->
+  (wk (apply p m) = true <->
+   has (apply p m) 4 King White = true /\ has (apply p m) 7 Rook White = true).
+Proof.
+  intros Hv Hm Hr. apply pos_valid_facts in Hv. destruct (vf_wk p Hv Hr) as [Hk Hq].
+  destruct (rights_apply p m) as [-> _]. rewrite (negb_andb_true _ _ Hr).
+  apply (right_kept_home p m White 7 Hv Hm); [lia|lia|exact Hk|exact Hq].
+Qed.
+Theorem wq_kept_iff_home p m : pos_valid p = true -> In m (legal_moves p) -> wq p = true ->
+  (wq (apply p m) = true <->
+   has (apply p m) 4 King White = true /\ has (apply p m) 0 Rook White = true).
+Proof.
+  intros Hv Hm Hr. apply pos_valid_facts in Hv. destruct (vf_wq p Hv Hr) as [Hk Hq].
+  destruct (rights_apply p m) as [_ [-> _]]. rewrite (negb_andb_true _ _ Hr).
+  apply (right_kept_home p m White 0 Hv Hm); [lia|lia|exact Hk|exact Hq].
+Qed.
+Theorem bk_kept_iff_home p m : pos_valid p = true -> In m (legal_moves p) -> bk p = true ->
+  (bk (apply p m) = true <->
+   has (apply p m) 60 King Black = true /\ has (apply p m) 63 Rook Black = true).
+Proof.
+  intros Hv Hm Hr. apply pos_valid_facts in Hv. destruct (vf_bk p Hv Hr) as [Hk Hq].
+  destruct (rights_apply p m) as [_ [_ [-> _]]]. rewrite (negb_andb_true _ _ Hr).
+  apply (right_kept_home p m Black 7 Hv Hm); [lia|lia|exact Hk|exact Hq].
+Qed.
+Theorem bq_kept_iff_home p m : pos_valid p = true -> In m (legal_moves p) -> bq p = true ->
+  (bq (apply p m) = true <->
+   has (apply p m) 60 King Black = true /\ has (apply p m) 56 Rook Black = true).
+Proof.
+  intros Hv Hm Hr. apply pos_valid_facts in Hv. destruct (vf_bq p Hv Hr) as [Hk Hq].
+  destruct (rights_apply p m) as [_ [_ [_ ->]]]. rewrite (negb_andb_true _ _ Hr).
+  apply (right_kept_home p m Black 0 Hv Hm); [lia|lia|exact Hk|exact Hq].
+Qed.
+
+(** ** the refinement statement (another file's task): the library's move application computes
+    the specification's successor on the abstraction of every board *)
